@@ -147,6 +147,10 @@ const (
 	stratStarve
 )
 
+// Progress counts scheduling steps of all simulations of this process; the
+// worker's watchdog reads it to tell a slow run from one that is stuck.
+var Progress atomic.Int64
+
 var theSim *Sim
 
 // FairSchedule reports whether the running simulation picks tasks with a
@@ -498,6 +502,7 @@ func (s *Sim) loop() *Result {
 			s.switches++
 		}
 		s.steps++
+		Progress.Add(1)
 		s.hash = hashStr(fnv(s.hash, uint64(t.ID)), t.site)
 		if n > 1 {
 			s.hash = fnv(s.hash, uint64(n))
